@@ -233,6 +233,31 @@ def extra_obligations(index, tier):
     ok = len(loops) > 4 and any(isinstance(n, ast.Call) and ast.unparse(n.func).endswith("Platform")
                                 for s in loops[4].body for n in ast.walk(s))
     out.append(("footprint/platform-object-allocated-inside-the-entry-loop", ok, "", "codebasin.finder:find"))
+    # the block is a function of (p, e, rootdir, state) alone: every other name it reads is a module-level name
+    # (imports, classes); a name assigned elsewhere in find() and read by the block is state that outlives the entry
+    if len(loops) > 4:
+        blk = loops[4]
+        assigned_in_find = {n.id for n in ast.walk(fi.node) if isinstance(n, ast.Name) and isinstance(n.ctx, ast.Store)}
+        assigned_in_find |= {a.arg for a in fi.node.args.args + fi.node.args.kwonlyargs}
+        assigned_in_blk = {n.id for st in blk.body for n in ast.walk(st) if isinstance(n, ast.Name) and isinstance(n.ctx, ast.Store)}
+        read_in_blk = {n.id for st in blk.body for n in ast.walk(st) if isinstance(n, ast.Name) and isinstance(n.ctx, ast.Load)}
+        outside = sorted((read_in_blk & assigned_in_find) - assigned_in_blk - {"p", "e", "rootdir", "state", "show_progress"})
+        out.append(("footprint/the per-entry block reads only p, e, rootdir, state from the enclosing function", not outside,
+                    f"also reads {outside}", "codebasin.finder:find"))
+        # loop nest: for p in configuration / for e in configuration[p], no early exit
+        outer = loops[3] if len(loops) > 3 else None
+        shape = (outer is not None and ast.unparse(outer.iter).startswith("tqdm(configuration")
+                 and ast.unparse(blk.iter).startswith("tqdm(configuration[p]") and blk in list(ast.walk(outer)))
+        out.append(("structure/every entry of every platform is visited: for p in configuration: for e in configuration[p]", shape, "",
+                    "codebasin.finder:find"))
+        exits = [type(n).__name__ for st in outer.body for n in ast.walk(st) if isinstance(n, (ast.Break, ast.Continue, ast.Return))] if outer else ["?"]
+        out.append(("structure/no break, continue or return inside the association loops", not exits, str(exits), "codebasin.finder:find"))
+    # every code-base file and every entry's file is parsed before any association
+    src = "".join(ast.unparse(fi.node).split())
+    pre = ("filenames=set(codebase)" in src and "filenames.add(e['file'])" in src and "state.insert_file(f)" in src
+           and src.index("state.insert_file(f)") < src.index("platform.Platform("))
+    out.append(("structure/all code-base files and entry files are parsed (by their own language) before any association", pre, "",
+                "codebasin.finder:find"))
     # no `global` statement and no store to a module/class attribute in the modules on the association path
     for mod in ("codebasin.finder", "codebasin.platform", "codebasin.preprocessor"):
         tree = index.modules[mod]
